@@ -18,6 +18,9 @@ CHECKS = {
  "C05": ("fault_enumeration", "A", "deterministic simulation: crash/errno injection at every recorded mutating call position (and pairs) of scenario worlds",
          "Exhaustive over the recorded mutating-call positions of the scenario set: crash before/after and 5 errnos at each k, plus pairs; oracle over the final inventory, warnings and the Processed count.",
          "process-kill model (completed syscalls durable); serial mode for global positions; FICLONE is an atomic stub", "4/C05"),
+ "C15": ("fault_enumeration", "A", "deterministic simulation: errno/EOF injection and actor-driven vanishing at every recorded read-side call of scenario worlds, pairs on two entries",
+         "Exhaustive over the recorded (call kind, path, ordinal) positions of the scenario set x {EACCES, EIO, ENOENT, EOF, real vanishing}; pairs sampled (quick) / all first-stage pairs (thorough). Oracle: exit 0, report == reference partition minus a subset of the faulted entry, warning when the outcome changed, a partially read file never grouped with another inode.",
+         "serial run; 'entry' read as the file (inode with all its scanned paths); faults on the input roots themselves excluded", "4/C15"),
 }
 NOT_APPLICABLE = {
  "C16": "pure function of (glob pattern, string): no schedule, clock, fault, stream or history for a simulator to control; needs bounded-exhaustive input enumeration against a reference matcher, which is a different technique (DESIGN section 5)",
